@@ -1,6 +1,7 @@
 /-
 C02 — Fills follow price-time priority; order comparison is a strict total order.
 -/
+import PamsLemmas.SrcOrder
 import PamsLemmas.SourceTie
 import PamsLemmas.MarketLemmas
 import Mathlib.Data.Nat.Basic
@@ -139,5 +140,47 @@ theorem source_gt_lt :
     PamsGen.gtLtPairs =
       [("True", "False"), ("False", "True"), (">", "<"), (">", "<"), ("False", "True"),
        ("True", "False"), ("<", ">"), (">", "<")] := by decide
+
+
+/-! ### (T2) the current source text of the comparison operators, by symbolic execution
+(`PamsLemmas/SrcOrder.lean`: the translated `pams/order.py` run under the mini-Python semantics on
+two accepted orders of one side) -/
+section SourceCode
+open Pams.Py Pams.Src
+variable {K : Type} [LinearOrder K] [NumOpsC K]
+
+/-- **running the source of `Order.__lt__` (the comparison `heapq` uses) on two accepted orders of
+one side returns exactly "a ranks before b"**: market before limit, better price, earlier
+acceptance, lower id -/
+theorem code_lt_is_ranking (a b : Order K) (dflt : K) (x : Nat → Int) (y : Nat → Bool)
+    (hs : a.isBuy = b.isBuy) :
+    ∃ r, result (rho2 a b dflt x y) env FUEL "Order.__lt__" [.ref 1, .ref 2]
+        (st2 a.price.isSome false b.price.isSome false) = .bool r ∧ (r = true ↔ ranksBefore a b) :=
+  ⟨a.lt b, lt_correct a b dflt x y hs, lt_iff_rank a b⟩
+
+/-- all six operators and `_gt_lt` of the source are the model's -/
+theorem code_operators (a b : Order K) (gt : Bool) (dflt : K) (x : Nat → Int) (y : Nat → Bool)
+    (hs : a.isBuy = b.isBuy) (hy : y 1 = gt) :
+    let run := fun fn args => result (rho2 a b dflt x y) env FUEL fn args
+        (st2 a.price.isSome false b.price.isSome false)
+    run "Order._gt_lt" [.ref 1, .ref 2, .bool (.atom 1)] = .bool (gtLt gt a b) ∧
+    run "Order.__lt__" [.ref 1, .ref 2] = .bool (a.lt b) ∧
+    run "Order.__gt__" [.ref 1, .ref 2] = .bool (a.gt b) ∧
+    run "Order.__eq__" [.ref 1, .ref 2] = .bool (a.eqv b) ∧
+    run "Order.__le__" [.ref 1, .ref 2] = .bool (a.le b) ∧
+    run "Order.__ge__" [.ref 1, .ref 2] = .bool (a.ge b) ∧
+    run "Order.__ne__" [.ref 1, .ref 2] = .bool (!a.eqv b) :=
+  ⟨gt_lt_correct a b gt dflt x y hs hy, lt_correct a b dflt x y hs, gt_correct a b dflt x y hs,
+   eq_correct a b dflt x y hs, le_correct a b dflt x y hs, ge_correct a b dflt x y hs,
+   ne_correct a b dflt x y hs⟩
+
+/-- comparing across sides raises -/
+theorem code_other_side_raises (a b : Order K) (dflt : K) (x : Nat → Int) (y : Nat → Bool)
+    (hs : a.isBuy ≠ b.isBuy) :
+    result (rho2 a b dflt x y) env FUEL "Order._gt_lt" [.ref 1, .ref 2, .bool (.atom 1)]
+      (st2 a.price.isSome false b.price.isSome false) = .err (.raise "ValueError") :=
+  gt_lt_other_side a b dflt x y hs
+
+end SourceCode
 
 end Pams.C02
